@@ -68,6 +68,7 @@ fn main() {
             "genuine_signature" => c04::run_genuine(sc),
             "verify" => verify::run(&pool, sc),
             "verify_sequence" => verify::run_sequence(&pool, sc),
+            "expiry_via" => verify::run_expiry_via(&pool, sc),
             "parse_datetime" => datetime::run(sc),
             "pae" => pae::run(sc),
             "rules" => rules::run(sc),
